@@ -2,11 +2,11 @@ import TbotVerif.Props.BoardUb
 /-! C18 — board bring-up reaches the login-complete state for any console timing or times out
     duly.
 
-    `run_spec`: for EVERY well-formed configuration and EVERY console (any stages, any pieces,
-    any delays — the console is not constrained at all) the observation of the model satisfies
-    `Spec.C18`.  The corollaries spell out what the monitor's verdict means:
-    (a) deadlines, (b) credentials, (d) bootlogs.  (c) — success against a cooperative
-    console — is in `Props/C18Coop.lean`. -/
+    `run_monitor`: for EVERY well-formed configuration and EVERY console (any stages, any pieces,
+    any delays — the console is not constrained at all) the observation of the model is accepted
+    by the reference monitor of `Spec.C18`.  `Props/C18Cor.lean` spells out what the monitor's
+    verdict means — (a) deadlines, (b) credentials, (d) bootlogs.  (c) — success against a
+    cooperative console — and the full `run_spec` are in `Props/C18Coop.lean`. -/
 
 namespace C18
 open Board Chan Spec C06
@@ -100,10 +100,10 @@ theorem bringup_final (c : Board.Case) (h : WfCase c) :
           obtain ⟨m2, hout2, hf2, hph2⟩ := hboot
           exact lnxUp_sim c l b2 m2 hout2 hf2 hph2
 
-/-- **C18 for the model**: every well-formed case, every console -/
-theorem run_spec (c : Board.Case) (h : WfCase c) : Spec.C18 c (Board.run c) = true := by
+/-- **the monitor accepts the model's observation**: every well-formed case, every console -/
+theorem run_monitor (c : Board.Case) (h : WfCase c) : Spec.monitorOk c (Board.run c) = true := by
   obtain ⟨m, hf⟩ := bringup_final c h
-  unfold Spec.C18 Board.run
+  unfold Spec.monitorOk Board.run
   generalize bringup c (powerOn c) = out at hf
   obtain ⟨r, b⟩ := out
   have hmon : steps c {} b.evs = some m := hf.mon
